@@ -109,34 +109,7 @@ def run(ctx: Ctx) -> None:
            msg="_fill_tokbuf removes buffered tokens other than the (backslash, NEWLINE) pair of a line continuation", node=fm.fn, mod=lexmod)
 
     # ------------------------------------------------------------------ R8.3
-    ctx.rule("R8.3", "a rule adds to lexer.lineno iff its language can contain a newline, and adds the number of newlines", minimum=30)
-    for r in lm.rules:
-        a = r.auto(flags)
-        has_nl = a.can_contain("\n")
-        key = f"lexer:PlyLexer.{r.name}|newline accounting"
-        if r.kind == "str":
-            ctx.ob("R8.3", key, not has_nl, msg=f"string rule {r.name} can match a newline but has no function to count it", node=r.node, mod=lexmod)
-            continue
-        if not r.delivers and "none" not in r.exits:
-            # error rule: always raises, the count does not matter afterwards
-            ctx.ob("R8.3", key, True, node=r.node, mod=lexmod, nontrivial=False)
-            continue
-        ok, why = _lineno_ok(r, a, has_nl)
-        ctx.ob("R8.3", key, ok, msg=why, node=r.node, mod=lexmod, detail={"can_contain_newline": has_nl})
-    ctx.ob("R8.3", "lexer:PlyLexer|literals and ignored characters contain no newline", "\n" not in lm.literals and "\n" not in lm.ignore,
-           msg="a newline can be consumed as a literal/ignored character without being counted", node=lm.cls, mod=lexmod, nontrivial=False)
-    # nobody else writes lineno
-    for qual, fn in lexmod.functions():
-        for st in walk_local(fn):
-            tg = []
-            if isinstance(st, ast.Assign):
-                tg = st.targets
-            elif isinstance(st, ast.AugAssign):
-                tg = [st.target]
-            for t in tg:
-                ch = attr_chain(t)
-                if ch and ch[-1] == "lineno" and not qual.startswith("PlyLexer.t_"):
-                    ctx.ob("R8.3", f"lexer:{qual}|writes lineno", False, msg=f"{qual} assigns a line number outside the token rules: `{short(st)}`", node=st, mod=lexmod)
+    check_nlacc(ctx, "R8.3", lm)
 
     # ------------------------------------------------------------------ R8.4
     ctx.rule("R8.4", "keywords: re-typed on every returning path of t_NAME, declared as tokens, matched by t_NAME and by no earlier rule", minimum=3)
@@ -230,6 +203,41 @@ def run(ctx: Ctx) -> None:
                    msg=f"{E.name} has priority and matches a prefix of the {name} {w!r}", node=E.node, mod=lexmod, nontrivial=False)
         ctx.sample({"rule": "R8.8", "class": name, "reference": rx, "intended": rname, "counterexample": cex}) if name in ("hex float", "char literal") else None
     ctx.exhaustive = True
+
+
+def check_nlacc(ctx: Ctx, rid: str, lm: LexModel) -> None:
+    """NLACC: newline accounting of every lexer rule (shared with C10)."""
+    lexmod = lm.lexer
+    flags = lm.reflags
+    ctx.rule(rid, "a rule adds to lexer.lineno iff its language can contain a newline, and adds the number of newlines", minimum=30)
+    for r in lm.rules:
+        a = r.auto(flags)
+        has_nl = a.can_contain("\n")
+        key = f"lexer:PlyLexer.{r.name}|newline accounting"
+        if r.kind == "str":
+            ctx.ob(rid, key, not has_nl, msg=f"string rule {r.name} can match a newline but has no function to count it", node=r.node, mod=lexmod)
+            continue
+        if not r.delivers and "none" not in r.exits:
+            # error rule: always raises, the count does not matter afterwards
+            ctx.ob(rid, key, True, node=r.node, mod=lexmod, nontrivial=False)
+            continue
+        ok, why = _lineno_ok(r, a, has_nl)
+        ctx.ob(rid, key, ok, msg=why, node=r.node, mod=lexmod, detail={"can_contain_newline": has_nl})
+    ctx.ob(rid, "lexer:PlyLexer|literals and ignored characters contain no newline", "\n" not in lm.literals and "\n" not in lm.ignore,
+           msg="a newline can be consumed as a literal/ignored character without being counted", node=lm.cls, mod=lexmod, nontrivial=False)
+    # nobody else writes lineno
+    for qual, fn in lexmod.functions():
+        for st in walk_local(fn):
+            tg = []
+            if isinstance(st, ast.Assign):
+                tg = st.targets
+            elif isinstance(st, ast.AugAssign):
+                tg = [st.target]
+            for t in tg:
+                ch = attr_chain(t)
+                if ch and ch[-1] == "lineno" and not qual.startswith("PlyLexer.t_"):
+                    ctx.ob(rid, f"lexer:{qual}|writes lineno", False, msg=f"{qual} assigns a line number outside the token rules: `{short(st)}`", node=st, mod=lexmod)
+
 
 
 # ---------------------------------------------------------------------------
